@@ -249,6 +249,25 @@ ROUND34 = {
 }
 
 
+# what the end of round 4 (refactors) and round 5 replaced or added (DESIGN.md 9.9)
+ROUND5 = {
+    "C03": " Round 5: text literals that begin / end with the other quote character or blanks; a helper registry written as a literal is evaluated like any constant; a failing check whose abstract run left the modelled subset is undecided, not a violation.",
+    "C04": " Round 5: (R4) 1_000 / 0x10 / 1e3-shaped property values are strings, quote-edge text literals; (R3) no function from which a clock read is reachable is memoised.",
+    "C05": " Round 5: (R2) redundant blanks behind the item prefix and date-only first lines (found and repaired 5c2de1e), the line rewrite is reached through the registered event handlers; (R3) conservation through both handlers, expectation per line metamorphic; (R5) the abstract reindex runs of C06.R1/R2 are adopted (a re-run changes no indexed note).",
+    "C07": " Round 5: the excluded look-alikes are a frozen table; the manager is built by interpreting its own __init__; infinite iterators (itertools.count) are modelled as truncated prefixes.",
+    "C08": " Round 5: strptime sites = calls to any zorg.shared.dates function that lets a strptime ValueError escape; fence / flag rules on the flattened walk_zorg_page; length guards from chained comparisons.",
+    "C09": " Round 5: the composite ORDER BY key (every component, positional, empty components included) is decided by multi-component scenarios instead of the shape of _order_by_keyfunc.",
+    "C10": " Round 5: add-before-delete and the two failure modes are decided by abstract runs of _move_note (write order in the trace, non-zero status, nothing removed); the comparison of add_note's prefix tuple with NoteType was REMOVED as over-demanding (it only moves the insertion point).",
+    "C11": " Round 5: the stamp table's days are ordered markers (a note dated on a later day is a valuation) and includes 'stamped in the index only' (interrupted write-back; found and repaired ee7d121).",
+    "C12": " Round 5: (R4) todos of every kind through the query path come out in Note.to_string form; (R9) C10.R5's evaluation of the move splice is adopted.",
+    "C13": " Round 5: (R7) the stamp-table obligations incl. the index-only-stamp valuations are adopted (re-run after a kill between commit and write-back).",
+    "C14": " Round 5: regex use is detected over the whole rename slice; replacement functions of re.sub/subn are interpreted per match.",
+    "C15": " Round 5: R1/R3/R5 are decided through expand_saved_queries only (text scenarios; every printable ASCII character inside a reference name must make a missing reference fail; every saved query the result depends on is read in the trace of that call); the shape rules were removed.",
+    "C16": " Round 5: (R3) is decided by the scenarios only.",
+    "C17": " Round 5: comment and continuation lines (no primary ZID) holding one / two ZIDs.",
+}
+
+
 def main() -> None:
     props = [json.loads(l) for l in (VERIF / "properties.jsonl").read_text().splitlines() if l.strip()]
     checks = []
@@ -257,7 +276,7 @@ def main() -> None:
         pid = p["id"]
         if pid in CHECKS:
             tech, text, note, ref = CHECKS[pid]
-            text = text + ADDENDA.get(pid, "") + ROUND34.get(pid, "") + (METHOD if pid in ("C01", "C02", "C03", "C05", "C06", "C07", "C08", "C09", "C10", "C11", "C12", "C13", "C14", "C15", "C16", "C17", "C18") else "")
+            text = text + ADDENDA.get(pid, "") + ROUND34.get(pid, "") + ROUND5.get(pid, "") + (METHOD if pid in ("C01", "C02", "C03", "C05", "C06", "C07", "C08", "C09", "C10", "C11", "C12", "C13", "C14", "C15", "C16", "C17", "C18") else "")
             checks.append(
                 {
                     "property_id": pid,
